@@ -45,6 +45,7 @@ package main
 //@   ensures wrong-length2 {C11}: implies(blen(b64dec(bstr(fsData[filePath]))) != 64, result1 != nil)
 //@   ensures value {C09,C11}: implies(result1 == nil, mkbytes(elems(result0), off(result0), len(result0)) == b64dec(bstr(fsData[filePath])))
 //@   ensures nil-on-error: implies(result1 != nil, result0 == nil)
+//@   ensures ops: envOps >= old(envOps)
 
 //@ func WriteKeyToFile
 //@   props C11
@@ -56,6 +57,7 @@ package main
 //@   ensures stored {C11}: implies(result == nil, fsKind[filePath] == 1 && fsData[filePath] == sbytes(b64enc(mkbytes(elems(key), off(key), len(key)))))
 //@   ensures mode {C11}: implies(result == nil && old(fsKind)[filePath] == 0, fsPerm[filePath] == 384)
 //@   ensures only-this-path {C11}: implies(result == nil, fsWrites == store(old(fsWrites), filePath, old(fsWrites)[filePath] + 1))
+//@   ensures ops: envOps >= old(envOps)
 //@   ensures directory-untouched {C11}: implies(old(fsKind)[filePath] == 2, result != nil && fsWrites == old(fsWrites) && fsKind == old(fsKind) && fsData == old(fsData))
 
 //@ func GenerateKey
@@ -95,40 +97,43 @@ package main
 //@ func processMongoLogStream
 //@   props C08
 //@   safety C07
-//@   assigns GoMaps, wfail, scanErr, outN, stderrN
-//@   requires: !wfail && !scanErr
-//@   loop 1 invariant io-ok {C08}: !wfail && !scanErr
-//@   loop 1 invariant out-grows: outN >= old(outN)
-//@   ensures no-silent-failure {C08}: implies(result == nil, !wfail && !scanErr)
-//@   ensures only-io-aborts {C07}: implies(result != nil, wfail || scanErr)
+//@   assigns GoMaps, wfailOn, scanErr, outN, stderrN
+//@   requires: !wfailOn[outWriter] && !scanErr
+//@   loop 1 invariant io-ok {C08}: !wfailOn[outWriter] && !scanErr
+//@   loop 1 invariant out-grows: outN >= old(outN) && wfailOn == store(old(wfailOn), outWriter, wfailOn[outWriter])
+//@   ensures no-silent-failure {C08}: implies(result == nil, !wfailOn[outWriter] && !scanErr)
+//@   ensures only-io-aborts {C07}: implies(result != nil, wfailOn[outWriter] || scanErr)
+//@   ensures only-this-writer: wfailOn == store(old(wfailOn), outWriter, wfailOn[outWriter])
 //@   ensures out-grows: outN >= old(outN)
 //@   ensures open-unchanged: openFail == old(openFail)
 
 //@ func ProcessMongoLogFile
 //@   props C08
 //@   safety C07
-//@   assigns GoMaps, wfail, scanErr, openFail, outN, stderrN, envOps
-//@   requires: !wfail && !scanErr && !openFail
+//@   assigns GoMaps, wfailOn, scanErr, openFail, outN, stderrN, envOps
+//@   requires: !wfailOn[outWriter] && !scanErr && !openFail && fileReader != nil
 //@   requires key-in-use-is-the-persisted-one {C11}: implies(shouldEncrypt && encryptionKey != nil, havePersisted && persistedKey == mkbytes(elems(encryptionKey), off(encryptionKey), len(encryptionKey)))
-//@   ensures no-silent-failure {C08}: implies(result == nil, !wfail && !scanErr && !openFail)
+//@   ensures no-silent-failure {C08}: implies(result == nil, !wfailOn[outWriter] && !scanErr && !openFail)
+//@   ensures only-this-writer: wfailOn == store(old(wfailOn), outWriter, wfailOn[outWriter])
 //@   ensures out-grows: outN >= old(outN)
 //@   ensures touched-environment: envOps > old(envOps)
 
 //@ func ProcessMongoLogFileFromReader
 //@   props C08
 //@   safety C07
-//@   assigns GoMaps, wfail, scanErr, outN, stderrN, envOps
-//@   requires: !wfail && !scanErr
+//@   assigns GoMaps, wfailOn, scanErr, outN, stderrN, envOps
+//@   requires: !wfailOn[outWriter] && !scanErr
 //@   requires key-in-use-is-the-persisted-one {C11}: implies(shouldEncrypt && encryptionKey != nil, havePersisted && persistedKey == mkbytes(elems(encryptionKey), off(encryptionKey), len(encryptionKey)))
 //@   sets envOps := envOps + 1
-//@   ensures no-silent-failure {C08}: implies(result == nil, !wfail && !scanErr)
+//@   ensures no-silent-failure {C08}: implies(result == nil, !wfailOn[outWriter] && !scanErr)
+//@   ensures only-this-writer: wfailOn == store(old(wfailOn), outWriter, wfailOn[outWriter])
 //@   ensures out-grows: outN >= old(outN)
 //@   ensures open-unchanged: openFail == old(openFail)
 
 //@ func GetStartAndEndDates
 //@   props C16
 //@   arith
-//@   requires: atlasLogStartDate >= 0 - 4611686018427387904 && atlasLogStartDate <= 4611686018427387904 && atlasLogEndDate >= 0 - 4611686018427387904 && atlasLogEndDate <= 4611686018427387904
+//@   requires both-or-neither {C16}: (atlasLogStartDate == 0) == (atlasLogEndDate == 0)
 //@   ensures window-default {C16}: implies(old(atlasLogStartDate) == 0 && old(atlasLogEndDate) == 0, result0 == nowUnix - 604800 && result1 == nowUnix && result0 < result1)
 //@   ensures window-given {C16}: implies(old(atlasLogStartDate) != 0 && old(atlasLogEndDate) != 0, result0 == old(atlasLogStartDate) && result1 == old(atlasLogEndDate))
 
@@ -143,7 +148,8 @@ package main
 //@   ensures absent {C11}: implies(fsKind[filename] == 0, !result)
 //@   ensures regular {C11}: implies(fsKind[filename] == 1, result)
 //@   ensures directory {C11}: implies(fsKind[filename] == 2, !result)
-//@   ensures kinds: fsKind[filename] >= 0 && fsKind[filename] <= 3
+//@   ensures kinds: fsKind[filename] >= 0 && fsKind[filename] <= 2
+//@   ensures ro: fsKind == old(fsKind) && fsData == old(fsData) && fsWrites == old(fsWrites)
 
 //@ func countLines
 //@   trusted
@@ -160,9 +166,10 @@ package main
 
 //@ func (*AtlasClient).DeleteClusterLogs
 //@   props C17
-//@   assigns tmp, stderrN, wfail
+//@   assigns tmp, stderrN, wfailOn
+//@   ensures only-std-writers: wfailOn == store(store(old(wfailOn), os.Stdout, wfailOn[os.Stdout]), os.Stderr, wfailOn[os.Stderr])
 //@   loop 1 invariant removed {C17}: tmp == minus(old(tmp), elemsS(elems(logFiles), off(logFiles), _idx))
-//@   loop 1 invariant frame: unchangedBelow("Arr:Str") && heapTop >= old(heapTop) && (base(errs) == 0 || base(errs) > old(heapTop))
+//@   loop 1 invariant frame: unchangedBelow("Arr:Str") && heapTop >= old(heapTop) && (base(errs) == 0 || base(errs) > old(heapTop)) && wfailOn == store(store(old(wfailOn), os.Stdout, wfailOn[os.Stdout]), os.Stderr, wfailOn[os.Stderr])
 //@   ensures removed-all {C17}: tmp == minus(old(tmp), elemsS(elems(logFiles), off(logFiles), len(logFiles)))
 
 //@ func (*AtlasClient).downloadClusterLogsForHost
@@ -197,9 +204,10 @@ package main
 //@ func (*AtlasClient).DownloadClusterLogs
 //@   props C17 C16
 //@   requires: c != nil && c.HTTPClient != nil
-//@   assigns tmp, effects, envOps, reqs, reqURL, stderrN, wfail
+//@   assigns tmp, effects, envOps, reqs, reqURL, stderrN, wfailOn
+//@   ensures only-std-writers: wfailOn == store(store(old(wfailOn), os.Stdout, wfailOn[os.Stdout]), os.Stderr, wfailOn[os.Stderr])
 //@   loop 1 invariant registered {C17}: tmp == union(old(tmp), elemsS(elems(logFiles), off(logFiles), len(logFiles)))
-//@   loop 1 invariant frame: unchangedBelow("Arr:Str") && (base(logFiles) == 0 || base(logFiles) > old(heapTop)) && envOps > old(envOps)
+//@   loop 1 invariant frame: unchangedBelow("Arr:Str") && (base(logFiles) == 0 || base(logFiles) > old(heapTop)) && envOps > old(envOps) && wfailOn == store(store(old(wfailOn), os.Stdout, wfailOn[os.Stdout]), os.Stderr, wfailOn[os.Stderr])
 //@   ensures no-leftover-on-error {C17}: implies(result1 != nil, subset(tmp, old(tmp)))
 //@   ensures registered-on-success {C17}: implies(result1 == nil, tmp == union(old(tmp), elemsS(elems(result0), off(result0), len(result0))))
 //@   ensures touched-environment: envOps > old(envOps)
@@ -215,7 +223,8 @@ package main
 
 //@ func main$1$1
 //@   props C17
-//@   assigns tmp, stderrN, wfail
+//@   assigns tmp, stderrN, wfailOn
+//@   ensures only-std-writers: wfailOn == store(store(old(wfailOn), os.Stdout, wfailOn[os.Stdout]), os.Stderr, wfailOn[os.Stderr])
 //@   ensures cleanup {C17}: tmp == minus(old(tmp), elemsS(elems(*files), off(*files), len(*files)))
 
 //@ func main$2
@@ -248,10 +257,11 @@ package main
 //@   local kf := *encryptionKeyFile
 //@   local encOn := enc && kf != ""
 //@   local keyValid := fsKind[kf] == 1 && b64ok(bstr(fsData[kf])) && blen(b64dec(bstr(fsData[kf]))) == 64
-//@   requires: effects == 0 && envOps == 0 && stderrN == 0 && tmp == emptyset && !wfail && !scanErr && !openFail && !havePersisted
-//@   requires: len(args) <= 1
-//@   loop 1 invariant temp-files {C17}: tmp == elemsS(elems(files), off(files), len(files)) && !wfail && !scanErr && !openFail
-//@   loop 1 invariant ops {C18}: effects > 0 && envOps > 0 && outN >= old(outN) && fsWrites == old(fsWrites)
+//@   requires: effects == 0 && envOps == 0 && stderrN == 0 && tmp == emptyset && wfailOn == noFail && !scanErr && !openFail && !havePersisted
+//@   requires: len(args) <= 1 && !shouldEncrypt && encryptionKey == nil
+//@   loop 1 invariant temp-files {C17}: tmp == elemsS(elems(files), off(files), len(files)) && !scanErr && !openFail && wfailOn == store(store(noFail, os.Stdout, wfailOn[os.Stdout]), os.Stderr, wfailOn[os.Stderr])
+//@   loop 1 invariant ops {C18}: envOps > 0 && outN >= old(outN)
+//@   loop 1 invariant keyfile {C11}: implies(encOn && old(fsKind)[kf] != 0, fsWrites == old(fsWrites) && fsKind[kf] == old(fsKind)[kf] && fsData[kf] == old(fsData)[kf] && keyValid)
 //@   loop 1 invariant key {C11}: implies(shouldEncrypt && encryptionKey != nil, havePersisted && persistedKey == mkbytes(elems(encryptionKey), off(encryptionKey), len(encryptionKey)))
 //@   loop 1 invariant cfg {C01}: redactedString == *replacement && G.redactNumbers == *redactNumbers && G.redactBooleans == *redactBooleans && G.redactIPs == *redactIPs && G.redactNamespaces == *redactNamespaces && G.eagerRedactionPaths == *eagerRedactionPaths && (G.redactedFieldsRegexp == nil) == (*redactedFieldsRegexp == "")
 //@   exit_requires nonzero {C18,C08}: code != 0
@@ -259,7 +269,7 @@ package main
 //@   exit_requires message {C18}: implies(!WD, stderrN > 0)
 //@   exit_requires complete {C18}: implies(WD, envOps > 0)
 //@   ensures accepted-only-if-well-defined {C18}: WD
-//@   ensures success-means-no-io-failure {C08}: !wfail && !scanErr && !openFail
+//@   ensures success-means-no-io-failure {C08}: !scanErr && !openFail && wfailOn == store(store(noFail, os.Stdout, wfailOn[os.Stdout]), os.Stderr, wfailOn[os.Stderr]) && implies(!atlas, !wfailOn[os.Stdout])
 //@   exit_requires no-temp-left {C17}: tmp == emptyset
 //@   ensures no-temp-left {C17}: tmp == emptyset
 //@   exit_requires existing-key-file-untouched {C11}: implies(encOn && old(fsKind)[kf] != 0, fsWrites == old(fsWrites) && fsKind[kf] == old(fsKind)[kf] && fsData[kf] == old(fsData)[kf])
